@@ -250,7 +250,7 @@ func c19ConnectSpace(c *explore.Ctx, hash string) {
 
 // ---- (2) account histories
 
-var c19Ops = []string{"Update(u3,p3)", "Update(u1,q1)", "Delete(u2)", "Delete(u3)", "restart", "restart with the next hash algorithm configured", "Update(u4,' s4 ') (blanks around the password)", "Update(u5,' \\t') (a password of blanks only)"}
+var c19Ops = []string{"Update(u3,p3)", "Update(u1,q1)", "Delete(u2)", "Delete(u3)", "restart", "restart with the next hash algorithm configured", "Update(u4,' s4 ') (blanks around the password)", "Update(u5,' \\t') (a password of blanks only)", "Update(u10..u34) (25 more accounts)"}
 
 func c19History(c *explore.Ctx, hash string, relative bool, seq []int) int {
 	names := func() []string {
@@ -277,7 +277,7 @@ func c19History(c *explore.Ctx, hash string, relative bool, seq []int) int {
 		}
 		n := 0
 		probeAll := func(step string) bool {
-			for _, pr := range [][2]string{{"u1", "p1"}, {"u1", "q1"}, {"u2", "p2"}, {"u3", "p3"}, {"u4", " s4 "}, {"u4", "s4"}, {"u5", " \t"}, {"u5", ""}} {
+			for _, pr := range [][2]string{{"u1", "p1"}, {"u1", "q1"}, {"u2", "p2"}, {"u3", "p3"}, {"u4", " s4 "}, {"u4", "s4"}, {"u5", " \t"}, {"u5", ""}, {"u10", "p10"}, {"u34", "p34"}} {
 				n++
 				x := w.Dial(fmt.Sprintf("P%d", n))
 				u := pr[0]
@@ -332,6 +332,12 @@ func c19History(c *explore.Ctx, hash string, relative bool, seq []int) int {
 			case 7:
 				_, err = a.Update(context.Background(), &auth.UpdateAccountRequest{Username: "u5", Password: " \t"})
 				ref["u5"], algoOf["u5"] = " \t", cur
+			case 8:
+				for k := 10; k <= 34 && err == nil; k++ {
+					u := fmt.Sprintf("u%d", k)
+					_, err = a.Update(context.Background(), &auth.UpdateAccountRequest{Username: u, Password: fmt.Sprintf("p%d", k)})
+					ref[u], algoOf[u] = fmt.Sprintf("p%d", k), cur
+				}
 			case 2:
 				_, err = a.Delete(context.Background(), &auth.DeleteAccountRequest{Username: "u2"})
 				delete(ref, "u2")
@@ -530,7 +536,7 @@ func c19PreAuth(c *explore.Ctx, ws bool, afterFailedConnect bool, ver byte, seq 
 
 func runC19(c *explore.Ctx) {
 	c.Level = "model_checking"
-	c.Rule = "E2: (connect space) for each of the 4 hash algorithms: version {3.1,3.1.1,5} x user name {absent,\"\",u1,U1,\"u1 \",u2,unknown,65535 bytes} x password {absent,\"\",p1,p1x,p2,hash(p1),65535 bytes} x v5 {no auth props, AuthMethod, AuthMethod+AuthData, empty AuthMethod}: CONNACK success iff the user name is a stored account and the password matches its stored hash; refused connects leave no client/session. (account histories) every sequence of <=3 (thorough 4) of {Update new, Update change, Update with blanks around / only blanks as password, Delete, Delete, restart broker, restart broker with the next hash algorithm configured} x hash x absolute/relative password file, probing 8 credential pairs (incl. the trimmed and the empty password) after every step and parsing the file on disk. (pre-auth traffic) every sequence of <=2 packets of 8 kinds before CONNECT and after a failed CONNECT, v3.1.1/v5, TCP and WebSocket listener: ClientService/SubscriptionService/RetainedService unchanged, an authenticated '#' bystander receives nothing, no reply other than a failing CONNACK/DISCONNECT."
+	c.Rule = "E2: (connect space) for each of the 4 hash algorithms: version {3.1,3.1.1,5} x user name {absent,\"\",u1,U1,\"u1 \",u2,unknown,65535 bytes} x password {absent,\"\",p1,p1x,p2,hash(p1),65535 bytes} x v5 {no auth props, AuthMethod, AuthMethod+AuthData, empty AuthMethod}: CONNACK success iff the user name is a stored account and the password matches its stored hash; refused connects leave no client/session. (account histories) every sequence of <=3 (thorough 4) of {Update new, Update change, Update with blanks around / only blanks as password, 25 more accounts at once, Delete, Delete, restart broker, restart broker with the next hash algorithm configured} x hash x absolute/relative password file, probing 10 credential pairs (incl. the trimmed and the empty password) after every step and parsing the file on disk. (pre-auth traffic) every sequence of <=2 packets of 8 kinds before CONNECT and after a failed CONNECT, v3.1.1/v5, TCP and WebSocket listener: ClientService/SubscriptionService/RetainedService unchanged, an authenticated '#' bystander receives nothing, no reply other than a failing CONNACK/DISCONNECT."
 	c.Trusted = []string{"vsched default schedule, memconn; the websocket handler is driven through a fake hijackable ResponseWriter", "refmqtt codec", "reference hashing with the Go standard library / x/crypto bcrypt"}
 	if rc := replayCase(c); rc != nil {
 		c.Fatal("C19 replay: re-run ./run.sh C19 quick (%v)", rc)
